@@ -79,11 +79,25 @@ def point_generated_at(path):
     importlib.invalidate_caches()
 
 
+class ImportViolation(Exception):
+    """A hand-written module of the code under test cannot be imported in this interpreter: that is an observation about
+    the code (every property presupposes its module can be imported), reported as a violation by mc/cli.py."""
+
+    def __init__(self, module, text):
+        super().__init__(module, text)
+        self.module, self.text = module, text
+
+
 def lib(module):
     """Import a static library module, e.g. lib('eolib.data.eo_reader')."""
     if "eolib" not in sys.modules:
         install_shims()
-    m = importlib.import_module(module)
+    try:
+        m = importlib.import_module(module)
+    except HarnessError:
+        raise
+    except Exception as e:  # noqa: BLE001
+        raise ImportViolation(module, f"{type(e).__name__}: {e}") from e
     f = getattr(m, "__file__", None)
     if f and not os.path.abspath(f).startswith(REPO):
         raise HarnessError(f"{module} was imported from {f}, not from {REPO}")
